@@ -642,6 +642,10 @@ func (ev *Evaluator) Eval(e ast.Expr, env *Env) Value {
 			if i, ok := idx.(Int); ok && i.V >= 0 && int(i.V) < len(b.Elems) {
 				return b.Elems[i.V]
 			}
+			if i, ok := idx.(Int); ok {
+				// both the table and the index are determined: this is what the program does
+				return ev.unk(x, fmt.Sprintf("PANIC: index out of range [%d] with length %d", i.V, len(b.Elems)))
+			}
 			return ev.unk(x, "index not a constant in range")
 		case *Map:
 			if v, ok := b.Get(idx); ok {
@@ -658,6 +662,11 @@ func (ev *Evaluator) Eval(e ast.Expr, env *Env) Value {
 			if _, isMap := ev.Info.TypeOf(x.X).Underlying().(*types.Map); isMap {
 				if z := ev.zeroOrNil(ev.Info.TypeOf(x)); z != nil {
 					return z
+				}
+			}
+			if _, isSl := ev.Info.TypeOf(x.X).Underlying().(*types.Slice); isSl {
+				if i, ok := idx.(Int); ok {
+					return ev.unk(x, fmt.Sprintf("PANIC: index out of range [%d] with length 0 (nil slice)", i.V))
 				}
 			}
 		}
